@@ -361,7 +361,12 @@ bool modelCall(State &S, const CallBase *CB, const std::string &name, std::vecto
       cells.push_back(constCell(0));
       if (shi > 0) {
         if (slo > total) writeCells(T, dst, cells, total + 1, total + 1, CB, "snprintf");
-        else {
+        else if (slo == shi) {
+          // the size is known and too small: exactly size-1 characters and the terminator are written, nothing beyond
+          cells.resize((size_t)slo);
+          cells[(size_t)slo - 1] = constCell(0);
+          writeCells(T, dst, cells, slo, slo, CB, "snprintf");
+        } else {
           // possible truncation: bytes beyond slo-1 are weak and any position in [slo-1, min(total,shi-1)] may hold the NUL
           i128 nmax = std::min(total + 1, shi);
           for (i128 k = std::max((i128)0, slo - 1); k < nmax; k++) cells[(size_t)k].cs.set(0);
